@@ -1156,7 +1156,11 @@ fn selftest_determinism(args: &[String]) -> i32 {
         return 0;
     }
     let mut bad = 0;
+    let only = arg(args, "--only").map(|s| s.to_string());
     for prop in registry::CLAIMED {
+        if only.as_deref().map(|o| o != prop.to_string()).unwrap_or(false) {
+            continue;
+        }
         let chunk = registry::budget(prop, Tier::Quick).chunk;
         let mut outs: Vec<BTreeMap<u64, String>> = vec![];
         for (cpu, rev, start) in [("0", false, 0u64), ("3", true, 0), ("none", false, 0), ("5", false, chunk), ("7", true, chunk)] {
